@@ -29,7 +29,10 @@ CHECKS = {
              "draw observed at the handler boundary) is judged by TLC: velocities change iff the draw is below the true rate and "
              "the true rate is positive, a rejected event leaves every velocity equal to the global state, the bounding rate is "
              "positive where the true rate is, the confirmation rate is the sum of the positive pair bounds the event was "
-             "proposed with, and the true rate never exceeds the nearest-image 1/r bound on the handlers configured with it.",
+             "proposed with, and the true rate never exceeds the nearest-image 1/r bound on the handlers configured with it. "
+             "TraceDomination.tla judges the same domination on a lattice of the minimum-image cube for the (potential, bound) pair "
+             "each shipped configuration builds - as built, deep-copied and after a dill round trip - and TraceThin.tla the "
+             "confirmation rule at its boundary (scripted rates, forced draws).",
         design="5/C04",
         note="Decided on the separations visited by the recorded runs only; the supremum over the continuum of separations is "
              "not decided by this family (DESIGN.md 5/C04, 6). Trusted: recorder wrappers, F64 keys."),
@@ -49,7 +52,9 @@ CHECKS = {
              "real factory builds from each .ini; a candidate computed from an outdated trajectory or active cell that survives "
              "the trash step is a counterexample. Code: in recorded runs every commit of an interaction / cell-veto handler "
              "must carry the motion versions of its in-state units as they were when its candidate was computed, and no stale "
-             "candidate may remain after any trash step; two generated runs start every handler's lazy-deletion counter just "
+             "candidate may remain after any trash step, and (SameTrajectory) every unit of the in-state recorded when the candidate "
+             "was computed has, in the global state at the commit, the same velocity and lies on the same straight line (measured in "
+             "exact rationals); two generated runs start every handler's lazy-deletion counter just "
              "below 2^32 so that the heap scheduler's counter wrap-around happens inside the recorded legs.",
         design="5/C08",
         note="Design model abstracts times and positions (any pending candidate may fire); quick tier bounds the largest "
@@ -76,7 +81,9 @@ CHECKS = {
     "C11": dict(
         technique="TLA+ model checking (TLC) of CellOcc.tla / Ecmc.tla + replay into SingleActiveCellOccupancy + trace "
                   "validation of recorded cell runs against TraceEcmc.tla",
-        text="Component: CellOcc.tla (mirror, capacity, active-separate, no-empty-surplus) exhaustively and by replay. Design: "
+        text="Component: CellOcc.tla (mirror, capacity, active-separate, no-empty-surplus) exhaustively and by replay; in the replay every "
+             "crossing (both directions of motion, two geometries: cell side 1, and box length 1 with cell side 1/n) is made by the real "
+             "CellBoundaryEventHandler and must land in the neighbouring cell. Design: "
              "Ecmc.tla per cell configuration (bookkeeping mirrors the true cells, a cell-boundary candidate is pending for the "
              "tracked unit, update never fails). Code: at every leg of recorded cell runs the occupancy read from the object is "
              "compared with the cell of every relevant unit's exactly advanced position.",
@@ -147,7 +154,8 @@ CHECKS = {
              "flow balance, never-non-negative and reset clauses for every zero-sum table (length <= 5 quick / 6 thorough) and "
              "explores the object as a state machine. Every table, active unit and unit piece of the draw range (plus end points) "
              "is executed on the real classes (one long-lived object per scheme reset between tables, and a fresh object) and on "
-             "the real TwoCompositeObjectSummedBoundingPotentialEventHandler (2+2 and 3+3 point masses, scripted pair derivatives); "
+             "the real TwoCompositeObjectSummedBoundingPotentialEventHandler and CompositeObjectCellVetoEventHandler (2+2 and 3+3 point "
+             "masses, scripted pair derivatives); tables are also scaled by 2^-47 and 2^30 (the choice may depend on table and draw only); "
              "TLC counts the selections per table: inflow into k equals |t[k]|, nothing non-negative is selected. The routing "
              "itself is not prescribed (a differing but balanced routing is a note, not a violation).",
         design="5/C05",
@@ -181,7 +189,8 @@ CHECKS = {
         text="Cells.tla defines neighbour/nearby/relative/translate as index arithmetic modulo the cells per side with torus "
              "clauses and a hopping unit as a state machine; every relation of 12 grids x 3 layer counts is replayed into the "
              "real classes for cubic and non-cubic boxes. Recorded cell extents and position_to_cell results at the extreme "
-             "floats next to every cell and box boundary are judged (abut, cover, contain, unique) on keys by TLC.",
+             "floats next to every cell and box boundary are judged (abut, cover, contain, unique) on keys by TLC; all probes go "
+             "through one position list updated in place (the map must not depend on earlier look-ups).",
         design="5/C16",
         note="Relations exhaustive for the listed grids; float extents probed for fixed + seeded (L, n) pairs. One known finding "
              "(top floats of the box uncovered for some grids)."),
